@@ -260,6 +260,28 @@ func TestVerifC12(t *testing.T) {
 				t.Fatal(err)
 			}
 		}
+		// the optional public fields of a full group may be filled in (by another client, by an inviter):
+		// every combination; the descriptor must not carry the secret whatever else the group carries
+		spCoq, lkCoq := 0, 0
+		if v := (di / 3) % 4; v != 0 {
+			g = g.Copy()
+			if v&1 != 0 {
+				sp, err := g.GetSigningPubKey()
+				if err != nil {
+					t.Fatal(err)
+				}
+				g.SignPub, _ = sp.Raw()
+				spCoq = 21
+			}
+			if v&2 != 0 {
+				lk, err := g.GetLinkKeyArray()
+				if err != nil {
+					t.Fatal(err)
+				}
+				g.LinkKey = append([]byte(nil), lk[:]...)
+				lkCoq = 22
+			}
+		}
 		desc, err := FilterGroupForReplication(g)
 		if err != nil {
 			t.Fatal(err)
@@ -337,10 +359,10 @@ func TestVerifC12(t *testing.T) {
 		}
 		out.Emit(vharness.Case{
 			Kind: "descriptor",
-			Coq:  fmt.Sprintf("CDesc (mkGroup (KeyOk 5) 7 (SigBy 5 7) %s 0 0) %v %v %v %v %v", c12typeCoq(g.GroupType), secretAbsent, opensMeta, opensHeaders, same, sameLK),
+			Coq:  fmt.Sprintf("CDesc (mkGroup (KeyOk 5) 7 (SigBy 5 7) %s %d %d) %v %v %v %v %v", c12typeCoq(g.GroupType), spCoq, lkCoq, secretAbsent, opensMeta, opensHeaders, same, sameLK),
 			Key:  fmt.Sprintf("desc|%d", di), Nontrivial: nmeta > 0 && nmsg > 0, OracleOK: ok, Note: note,
 			Sig:    "replication descriptor: " + note,
-			Replay: map[string]any{"group_type": g.GroupType.String(), "metadata_entries": nmeta, "message_entries": nmsg},
+			Replay: map[string]any{"group_type": g.GroupType.String(), "metadata_entries": nmeta, "message_entries": nmsg, "sign_pub_filled": spCoq != 0, "link_key_filled": lkCoq != 0},
 		})
 		rmeta.Close()
 		rmsg.Close()
